@@ -2,7 +2,7 @@
    on every run: genotype.py average-depth test, coverage.py average_coverage / diploid_avg_coverage, sam.py neutral floor, cn.py
    low-depth test) are the expressions the hand-written model Guards.v uses. *)
 From Coq Require Import Lqa Lia.
-From Aldy Require Import Base Consts Guards Exprs_guard Consts_here.
+From Aldy Require Import Base Consts Guards Exprs_guard Consts_here TieTac.
 Import List.
 Open Scope Q_scope.
 
@@ -15,8 +15,8 @@ Lemma guard_avg_tied : forall c v ev,
 Proof. reflexivity. Qed.
 
 (* coverage.py average_coverage: sum(total(pos)) / float(len(_coverage) + 0.1), with the translated literal *)
-Lemma guard_avg_cov_tied : forall sites, avg_cov here sites = guard_avg_cov (inZ (zsum sites)) (inZ (Z.of_nat (length sites))).
-Proof. reflexivity. Qed.
+Lemma guard_avg_cov_tied : forall sites, avg_cov here sites == guard_avg_cov (inZ (zsum sites)) (inZ (Z.of_nat (length sites))).
+Proof. first [reflexivity | intros; unfold avg_cov, guard_avg_cov; tie_q]. Qed.
 
 (* sam.py: `self.coverage.diploid_avg_coverage() < 2`, with the translated literal *)
 Lemma guard_neutral_thin_tied : forall x, Qltb x (c_neutral_floor here) = guard_neutral_thin x.
